@@ -43,6 +43,7 @@ Lemma module_of_facts s q o text n m : module_of s q o text n = Ok m ->
 Proof.
   unfold module_of. destruct (select_operation o (rq_ops q) (norm o n)) as [op|]; [|discriminate].
   destruct (operation_items s (rq_frags q) o op) as [items|]; [|discriminate].
+  destruct (match all_used s (rq_frags q) op with Some u => double_required s u | None => false end); [discriminate|].
   intros H. inversion H; subst m; cbn. repeat split; try reflexivity; cbn; tauto.
 Qed.
 
@@ -55,6 +56,7 @@ Lemma module_of_items s q o text op m :
 Proof.
   intros Hnd Hin. unfold module_of. rewrite (select_unique o (rq_ops q) op Hnd Hin).
   destruct (operation_items s (rq_frags q) o op) as [items|]; [|discriminate].
+  destruct (match all_used s (rq_frags q) op with Some u => double_required s u | None => false end); [discriminate|].
   intros H. inversion H; subst m. reflexivity.
 Qed.
 
